@@ -18,7 +18,7 @@ from pathlib import Path
 
 ROOT = Path(__file__).resolve().parent.parent
 SEEDED = ROOT / "seeded"
-REPO = "/repo"
+REPO = os.environ.get("VERIF_REPO", "/repo")
 PY = "/venv/bin/python"
 ALL = [f"C{i:02d}" for i in range(1, 20)]
 
